@@ -14,7 +14,20 @@ def encodings(rng):
         yt = rng.choice(pool)
         return yt, (yt if c == 0 else rng.choice([v for v in pool if v != yt]))
 
+    bufs = {"a": np.zeros(1, dtype=np.int64), "b": np.zeros(1, dtype=np.int64), "l1": [0], "l2": [0]}
+
+    def reuse_arrays(c, t):        # ONE preallocated array per side, overwritten in place before every call
+        a, b = pick([4, 9, 11], c)
+        bufs["a"][0], bufs["b"][0] = a, b
+        return bufs["a"], bufs["b"]
+
+    def reuse_lists(c, t):
+        a, b = pick([4, 9, 11], c)
+        bufs["l1"][0], bufs["l2"][0] = a, b
+        return bufs["l1"], bufs["l2"]
+
     return {
+        "reused arrays": reuse_arrays, "reused lists": reuse_lists,
         "ints 7/3": lambda c, t: (7, 7) if c == 0 else (7, 3),
         "strings": lambda c, t: pick(classes, c),
         "bools": lambda c, t: pick([True, False], c),
